@@ -68,7 +68,11 @@ def ndim_of(qname, f):
             except Exception:
                 continue
         else:
-            raise common.MachineryError('C15: cannot determine the number of populations of %s' % qname)
+            # the model cannot be evaluated at all on this tree (that is reported as a violation where it is evaluated);
+            # infer the number of populations from the signature instead of stopping the run
+            names = ' '.join(f.__param_names__) + ' ' + qname.split('.')[-1]
+            _NDIM[qname] = 3 if any(t in names for t in ('nu3', 'm13', 'm23', 'T3')) else \
+                2 if any(t in names for t in ('nu2', 'm12', 'm21', 'gamma2', 'split', 'IM', ' m ', 'mig')) else 1
     return _NDIM[qname]
 
 
@@ -997,7 +1001,15 @@ def run(ctx):
         traces, verdicts, st = validate([g], parallel=1)
         return {'coverage': {'states': st['states'], 'transitions': st['transitions'], 'traces_validated_against_impl': 1, 'samples': [g]},
                 'assumptions': [], 'violations': violations_of([g], verdicts)}
+    # a request for GPU execution that cannot be honoured (no dadi.cuda on this machine) is documented to return False
+    # and change nothing: every model below must still return its spectrum afterwards
+    try:
+        import dadi as _dadi
+        ctx.cuda_request = repr(_dadi.cuda_enabled(True))
+    except Exception as e:
+        ctx.cuda_request = 'raised ' + type(e).__name__
     res = common.pipeline(ctx, mcs, TRACE_SPEC, [], rule='', assumptions=[
+        'dadi.cuda_enabled(True) is called once before the models are evaluated (returned %s on this machine); ' % getattr(ctx, 'cuda_request', '?') +
         'the event proxies sit on dadi.PhiManip.*, dadi.Integration.one_pop..five_pops and Spectrum.from_phi[_inbreeding] (module / class attributes looked up at call time); '
         'nested calls made by a primitive itself are not logged',
         'a time-function argument is known to the specification by its values at the fractions (0, 1/4, 1/2, 1) of the integration interval',
